@@ -1,0 +1,56 @@
+//go:build verif
+
+package machine
+
+// Contracts for the gvc verifier (/verif). Comment-only: this file adds no
+// code. Syntax: /verif/DESIGN.md §2.2. Checked on every run against the SSA
+// of the functions named here; the bodies of encoding/binary's LittleEndian
+// methods are not assumed but inlined from the GOROOT source that is compiled.
+
+//@ props C15
+
+//@ ghost func le64(b0 byte, b1 byte, b2 byte, b3 byte, b4 byte, b5 byte, b6 byte, b7 byte) uint64 = uint64(b0) | uint64(b1)<<8 | uint64(b2)<<16 | uint64(b3)<<24 | uint64(b4)<<32 | uint64(b5)<<40 | uint64(b6)<<48 | uint64(b7)<<56
+//@ ghost func le32(b0 byte, b1 byte, b2 byte, b3 byte) uint32 = uint32(b0) | uint32(b1)<<8 | uint32(b2)<<16 | uint32(b3)<<24
+
+//@ func UInt64Put
+//@   panics_iff [short buffer refused] len(p) < 8
+//@   on_panic [nothing written] unchanged()
+//@   ensures [little-endian bytes, rest untouched] forall i int :: 0 <= i && i < len(p) ==> p[i] == (i < 8 ? byte(n >> (8 * uint64(i))) : old(p[i]))
+//@   modifies p
+
+//@ func UInt32Put
+//@   panics_iff [short buffer refused] len(p) < 4
+//@   on_panic [nothing written] unchanged()
+//@   ensures [little-endian bytes, rest untouched] forall i int :: 0 <= i && i < len(p) ==> p[i] == (i < 4 ? byte(n >> (8 * uint32(i))) : old(p[i]))
+//@   modifies p
+
+//@ func UInt64Get
+//@   panics_iff [short buffer refused] len(p) < 8
+//@   ensures [little-endian value of first 8 bytes] result == le64(p[0], p[1], p[2], p[3], p[4], p[5], p[6], p[7])
+
+//@ func UInt32Get
+//@   panics_iff [short buffer refused] len(p) < 4
+//@   ensures [little-endian value of first 4 bytes] result == le32(p[0], p[1], p[2], p[3])
+
+//@ lemma get_put64: forall n uint64 :: le64(byte(n), byte(n>>8), byte(n>>16), byte(n>>24), byte(n>>32), byte(n>>40), byte(n>>48), byte(n>>56)) == n
+//@ lemma get_put32: forall n uint32 :: le32(byte(n), byte(n>>8), byte(n>>16), byte(n>>24)) == n
+
+//@ props C16
+
+//@ func Assume
+//@   panics_iff [panics exactly when false] !c
+
+//@ func Assert
+//@   panics_iff [panics exactly when false] !c
+
+//@ func MapClear
+//@   ensures [map is empty] forall k K :: !has(m, k)
+//@   ensures [length zero] m != nil ==> len(m) == 0
+//@   modifies map(m)
+//@   loop 1 invariant [every remaining key is still to be produced] forall k K :: has(m, k) ==> todo[k]
+
+//@ ghost func dec(x uint64) string
+//@ assume func fmt.Sprintf (format, a)
+//@   ensures format == "%d" && len(a) == 1 && typeis(a[0], uint64) ==> result == dec(a[0].(uint64))
+//@ func UInt64ToString
+//@   ensures [decimal rendering via fmt %d] result == dec(x)
